@@ -800,6 +800,49 @@ def retx_script(r, idx, fate_vec=None):
     return s
 
 
+def stopreset_script(r, idx, seq=None):
+    """Unread data on a stream that is stopped by its reader and reset or finished by its writer, in
+    every order and with the frames crossing or not: the credit for the unread bytes has to come back
+    exactly once.  No reading application is attached (only scripted reads), windows are small.
+    `seq` is a TLC-enumerated order over st (reader stops), rs (writer resets), wr (writer writes more),
+    fi (writer finishes), rd (reader reads a little), t (time passes: frames are delivered)."""
+    writer = r.choice([1, 1, 0])
+    reader = 1 - writer
+    rcfg = {"idle_ms": 30000, "recv_window": r.choice([1000, 3000, 10000]), "stream_recv_window": r.choice([600, 2000, 10000])}
+    wcfg = {"idle_ms": 30000}
+    cfg = base_cfg(r, server=(wcfg if writer == 0 else rcfg), client=(wcfg if writer == 1 else rcfg))
+    cfg["latency_us"] = r.choice([1000, 10000])
+    steps = [{"do": "connect", "n": 1}, {"do": "run_until", "what": "connected", "max_us": 20000000}, {"do": "run", "us": 200000}]
+    d = r.choice([0, 1])
+    sid = (0 if writer == 1 else 1) + 2 * d
+    steps.append({"do": "op", "n": writer, "c": 0, "op": {"op": "open", "dir": d}})
+    steps.append({"do": "op", "n": writer, "c": 0, "op": {"op": "write", "id": sid, "len": r.choice([1, 100, 400]), "key": _skey(writer == 0, sid), "off": "auto"}})
+    if r.random() < 0.8:
+        steps.append({"do": "run", "us": 100000})
+    if seq is None:
+        seq = [r.choice(["st", "rs", "wr", "fi", "rd", "t", "t"]) for _ in range(r.choice([3, 5, 8]))]
+    for sym in seq:
+        if sym == "st":
+            steps.append({"do": "op", "n": reader, "c": 0, "op": {"op": "stop", "id": sid, "code": 7}})
+        elif sym == "rs":
+            steps.append({"do": "op", "n": writer, "c": 0, "op": {"op": "reset", "id": sid, "code": 9}})
+        elif sym == "wr":
+            steps.append({"do": "op", "n": writer, "c": 0, "op": {"op": "write", "id": sid, "len": r.choice([1, 50, 150]), "key": _skey(writer == 0, sid), "off": "auto"}})
+        elif sym == "fi":
+            steps.append({"do": "op", "n": writer, "c": 0, "op": {"op": "finish", "id": sid}})
+        elif sym == "rd":
+            steps.append({"do": "op", "n": reader, "c": 0, "op": {"op": "read", "id": sid, "ordered": True, "max_len": r.choice([1, 30, 1000])}})
+        else:
+            steps.append({"do": "run", "us": r.choice([3000, 30000, 100000])})
+    steps.append({"do": "run", "us": 300000})
+    # a second stream afterwards: whatever credit was over-issued would let it overrun the window
+    sid2 = sid + 4
+    steps.append({"do": "op", "n": writer, "c": 0, "op": {"op": "open", "dir": d}})
+    steps.append({"do": "op", "n": writer, "c": 0, "op": {"op": "write", "id": sid2, "len": 3000, "key": _skey(writer == 0, sid2), "off": "auto"}})
+    steps.append({"do": "run", "us": 500000})
+    return {"cfg": cfg, "steps": steps, "tag": {"family": "stopreset", "idx": idx}}
+
+
 # ------------------------------------------------------------------------------------------------
 # C11
 
